@@ -81,7 +81,8 @@ func (m *qModel) drain() {
 type dirMember struct {
 	policy log.BufferFullPolicy
 	k      int
-	ops    string
+	ops    string // 'E' INFO event, 'F' event of level hi, 'W' raw write, 'T' the appender takes one item
+	hi     log.Level
 }
 
 var dirMembers = map[string][]dirMember{}
@@ -108,11 +109,32 @@ func dirList(tier string) []dirMember {
 		}
 	}
 	rec("")
+	// the same with events of other levels (the queue treats every level alike): sequences one shorter
+	// that contain at least one 'F', for the lowest and the three highest built-in levels
+	var fseqs []string
+	var recF func(s string)
+	recF = func(s string) {
+		if strings.Contains(s, "F") {
+			fseqs = append(fseqs, s)
+		}
+		if len(s) == depth-1 {
+			return
+		}
+		for _, c := range "EFWT" {
+			recF(s + string(c))
+		}
+	}
+	recF("")
 	var out []dirMember
 	for _, pol := range []log.BufferFullPolicy{log.BufferFullPolicyBlock, log.BufferFullPolicyDiscard, log.BufferFullPolicyDiscardOldest} {
 		for _, k := range []int{100, 99, 98, 1, 0} {
 			for _, s := range seqs {
-				out = append(out, dirMember{pol, k, s})
+				out = append(out, dirMember{pol, k, s, log.InfoLevel})
+			}
+			for _, hi := range []log.Level{log.TraceLevel, log.ErrorLevel, log.PanicLevel, log.FatalLevel} {
+				for _, s := range fseqs {
+					out = append(out, dirMember{pol, k, s, hi})
+				}
 			}
 		}
 	}
@@ -144,11 +166,15 @@ func dirScenario(d dirMember) *zzvrt.Scenario {
 	ids := make([]string, len(d.ops))
 	for i, op := range d.ops {
 		switch op {
-		case 'E', 'W':
+		case 'E', 'F', 'W':
 			if len(m.pending) > 0 {
 				return nil
 			}
-			ids[i] = fmt.Sprintf("%c:%s", op, idName(idCode(0, i)))
+			kind := op
+			if kind == 'F' {
+				kind = 'E'
+			}
+			ids[i] = fmt.Sprintf("%c:%s", kind, idName(idCode(0, i)))
 			m.submit(ids[i])
 		case 'T':
 			m.take()
@@ -165,6 +191,9 @@ func dirScenario(d dirMember) *zzvrt.Scenario {
 		errS     string
 	)
 	desc := fmt.Sprintf("%s k=%d ops=%s", policyName(d.policy), d.k, d.ops)
+	if strings.Contains(d.ops, "F") {
+		desc += " F=" + d.hi.Name()
+	}
 	return &zzvrt.Scenario{
 		Desc:   desc,
 		Before: func() { resetAll(); obsSnaps, obsFinal, errS = nil, snap{}, "" },
@@ -208,10 +237,14 @@ func dirScenario(d dirMember) *zzvrt.Scenario {
 			for i, op := range d.ops {
 				id := ids[i]
 				switch op {
-				case 'E':
+				case 'E', 'F':
+					lv := log.InfoLevel
+					if op == 'F' {
+						lv = d.hi
+					}
 					zzvrt.GoNamed("submit", func() {
 						e := log.GetEvent()
-						e.Level = log.InfoLevel
+						e.Level = lv
 						e.Fields = []log.Field{log.Int("id", idCode(0, i))}
 						l.Append(e)
 						returned[id] = true
